@@ -250,6 +250,86 @@ theorem C11_optional_nested_struct_example :
     KMs.optNonKeyAt (.cons 0 false false true (.prim .u8) (.cons 5 true false false (.prim .u8) .nil)) 1 = true := by
   decide +kernel
 
+
+/-! ### a key member of structure type is copied whole: its own key flags are irrelevant (follow-up 5) -/
+mutual
+  /-- the member list with every key flag INSIDE the type of a key member cleared (`tyK t.erase`); key flags of
+      non-key nested structures (which the traversal does descend into) are kept -/
+  def normKeys : KMs → KMs
+    | .nil => .nil
+    | .cons id opt mu key t rest => .cons id opt mu key (if key then tyK t.erase else normKeysTy t) (normKeys rest)
+  def normKeysTy : KTy → KTy
+    | .struct x ms => .struct x (normKeys ms)
+    | t => t
+end
+
+mutual
+theorem flatV_normKeys : (ms : KMs) → (fs : List Val) → flatV (normKeys ms) fs = flatV ms fs
+  | .nil, _ => by simp [normKeys, flatV]
+  | .cons _ _ _ _ _ _, [] => by simp [normKeys, flatV]
+  | .cons id opt mu key t rest, f :: fs => by
+    have ihr := flatV_normKeys rest fs
+    cases key with
+    | true => simp only [normKeys, flatV, if_true, tyK_erase, ihr]
+    | false =>
+      cases opt with
+      | true => simp only [normKeys, flatV, Bool.false_eq_true, if_false, if_true, ihr]
+      | false =>
+        have iht := flatVTy_normKeys t f
+        simp only [normKeys, flatV, Bool.false_eq_true, if_false, ihr, iht]
+theorem flatVTy_normKeys : (t : KTy) → (f : Val) → flatVTy (normKeysTy t) f = flatVTy t f
+  | .struct _ ms, .struct fs => by simp only [normKeysTy, flatVTy, flatV_normKeys ms fs]
+  | .struct _ _, .num _ | .struct _ _, .str _ | .struct _ _, .list _ | .struct _ _, .absent => by simp [normKeysTy, flatVTy]
+  | .prim _, _ | .str, _ | .wstr, _ | .union _ _ _, _ | .enum _ _ _, _ | .seq _, _ | .arr _ _, _ => by simp [normKeysTy]
+end
+
+mutual
+theorem flatT_normKeys : (ms : KMs) → flatT (normKeys ms) = flatT ms
+  | .nil => by simp [normKeys, flatT]
+  | .cons id opt mu key t rest => by
+    have ihr := flatT_normKeys rest
+    cases key with
+    | true => simp only [normKeys, flatT, if_true, tyK_erase, ihr]
+    | false =>
+      cases opt with
+      | true => simp only [normKeys, flatT, Bool.false_eq_true, if_false, if_true, ihr]
+      | false => simp only [normKeys, flatT, Bool.false_eq_true, if_false, ihr, flatTy_normKeys t]
+theorem flatTy_normKeys : (t : KTy) → flatTy (normKeysTy t) = flatTy t
+  | .struct _ ms => by simp only [normKeysTy, flatTy, flatT_normKeys ms]
+  | .prim _ | .str | .wstr | .union _ _ _ | .enum _ _ _ | .seq _ | .arr _ _ => by simp [normKeysTy]
+end
+
+/-- **C11, a key member of structure type is not flattened**: for EVERY keyed structure type and every value, clearing
+    (or setting differently) the key flags inside the types of its KEY members - e.g. `@key Location location` with
+    `Location { @key zone; floor }` - changes neither the key-holder type, nor the key projection, nor the handle, nor
+    the outcome of `get_instance_handle_from_dynamic_data`: a key member is copied whole (`set_value(id, whole value)`),
+    the traversal does not descend into it, so its inner member ids cannot meet the outer key ids. -/
+theorem C11_key_struct_member_not_flattened (cfg : Cfg) (x : Ext) (ms : KMs) (v : Val) :
+    flatT (normKeys ms) = flatT ms ∧
+    keyProj (.struct x (normKeys ms)) v = keyProj (.struct x ms) v ∧
+    handle cfg (.struct x (normKeys ms)) v = handle cfg (.struct x ms) v ∧
+    handleOutcome cfg (.struct x (normKeys ms)) v = handleOutcome cfg (.struct x ms) v := by
+  have hp : keyProj (.struct x (normKeys ms)) v = keyProj (.struct x ms) v := by
+    cases v <;> simp only [keyProj, flatV_normKeys]
+  refine ⟨flatT_normKeys ms, hp, ?_, ?_⟩
+  · simp only [handle, keyBytes, keyHolder, hp]
+  · simp only [handleOutcome, handle, keyBytes, keyHolder, hp]
+
+/-- the exemplar of the seeded change C12_c, kernel-checked: `Sensor { @key id (0): u32; @key location (1): Location }`,
+    `Location { @key zone (0): u32; floor (2): u8 }`: the handle of (7, {3,1}) is `[id][zone][floor]` =
+    00000007 00000003 01, that of (8, {3,1}) differs - the inner `zone` (member id 0) does not overwrite `id` (member id 0);
+    the type is inside `wfKey` (the flattened key ids 0, 1 are distinct). Replay `kh SF{0k:u32,1k:SF{0k:u32,2:u8},3:u16} …`. -/
+def tySensor : KTy := .struct .final (.cons 0 false false true (.prim .u32)
+  (.cons 1 false false true (.struct .final (.cons 0 false false true (.prim .u32) (.cons 2 false false false (.prim .u8) .nil)))
+  (.cons 3 false false false (.prim .u16) .nil)))
+theorem C11_key_struct_member_example :
+    (handle Cfg.fixed tySensor (.struct [.num 7, .struct [.num 3, .num 1], .num 5])).toOption =
+      some ([0, 0, 0, 7, 0, 0, 0, 3, 1] ++ List.replicate 7 0) ∧
+    (handle Cfg.fixed tySensor (.struct [.num 8, .struct [.num 3, .num 1], .num 5])).toOption =
+      some ([0, 0, 0, 8, 0, 0, 0, 3, 1] ++ List.replicate 7 0) ∧
+    wfKey Cfg.fixed tySensor (.struct [.num 7, .struct [.num 3, .num 1], .num 5]) = true := by
+  decide +kernel
+
 def tyKeyDemo : KTy := .struct .appendable
   (.cons 0 false false false (.struct .final (.cons 10 false false true (.prim .u8) (.cons 11 false false false .str .nil)))
   (.cons 1 false false true .str (.cons 2 false false false (.prim .u64) (.cons 3 false false true (.arr (.prim .i16) 2) .nil))))
